@@ -1,87 +1,26 @@
 /-
-  Helper lemmas for property C10 (tree addressing).
+  Helper lemmas for property C10 (tree addressing). The lemmas are split by layer:
+
+    Lemmas/AstPath/Abstract.lean    pluck ∘ pathfy on element lists, distinctness and number of paths
+    Lemmas/AstPath/StrCodec.lean    str(int)/int(str), split/join
+    Lemmas/AstPath/Codec.lean       __break_tag / DSN.elements invert the path encoder (well-formed tags)
+    Lemmas/AstPath/Bijection.lean   string enumeration = encoded abstract enumeration, distinct keys, pluck on strings
+    Lemmas/AstPath/Cache.lean       full_pathfy dict, EntryCache entries and ids
+    Lemmas/AstPath/Resolve.lean     NodeResolver instance-cache invariant
+    Lemmas/AstPath/Children.lean    which enumerated paths have a given parent path (abstract layer)
+    Lemmas/AstPath/CacheChildren.lean  the child map of EntryCache after a parents-first insertion sequence
+    Lemmas/AstPath/ChildrenPaths.lean  Nodes.children on the cache of full_pathfy
+    Lemmas/AstPath/Parent.lean      Nodes.parent / Nodes.siblings on the cache of full_pathfy
+    Lemmas/AstPath/Ancestor.lean    Nodes.ancestor on the cache of full_pathfy (index-group stripping, tag search)
 -/
-import Tranp.Model.AstPath
-
-namespace Tranp.AstPath
-open Tranp
-
-theorem pluckRel_append (p q : Path) (e : Entry) :
-    pluckRel (p ++ q) e = (pluckRel p e).bind (pluckRel q) := by
-  induction p generalizing e with
-  | nil => simp [pluckRel]
-  | cons el rest ih =>
-    simp only [List.cons_append, pluckRel]
-    cases h : stepInto e el <;> simp [ih]
-
-theorem lastWithTag_none (t : Str) (cs : List Entry) (h : ∀ a ∈ cs, ¬ a.name = t) :
-    lastWithTag t cs = none := by
-  induction cs with
-  | nil => rfl
-  | cons x xs ih =>
-    have hx : ¬ x.name = t := h x (by simp)
-    simp [lastWithTag, ih (fun a ha => h a (by simp [ha])), hx]
-
-theorem lastWithTag_unique (t : Str) (cs : List Entry) (i : Nat) (c : Entry)
-    (hc : cs[i]? = some c) (hn : c.name = t) (hu : countTag t cs = 1) :
-    lastWithTag t cs = some c := by
-  induction cs generalizing i with
-  | nil => simp at hc
-  | cons d rest ih =>
-    unfold countTag at hu ih
-    simp only [List.filter_cons] at hu
-    cases i with
-    | zero =>
-      simp at hc; subst hc
-      simp [hn] at hu
-      simp [lastWithTag, lastWithTag_none t rest hu, hn]
-    | succ j =>
-      simp at hc
-      split at hu
-      · simp at hu
-        exact absurd hn (hu c (List.mem_of_getElem? hc))
-      · have := ih j hc hu
-        simp [lastWithTag, this]
-
-theorem step_elemFor (t : Str) (cs : List Entry) (i : Nat) (c : Entry) (hc : cs[i]? = some c) :
-    stepInto (.tree t cs) (elemFor cs i c) = some c := by
-  unfold elemFor
-  split
-  · rename_i h
-    simp only [stepInto]
-    exact lastWithTag_unique c.name cs i c hc rfl (by simpa using h)
-  · simp [stepInto, hc]
-
-mutual
-theorem pathfy_sound (e : Entry) (p : Path) :
-    ∀ q x, (q, x) ∈ pathfy e p → ∃ r, q = p ++ r ∧ pluckRel r e = some x := by
-  intro q x h
-  match e with
-  | .tree t cs =>
-    simp only [pathfy, List.mem_cons] at h
-    rcases h with h | h
-    · exact ⟨[], by simp_all [pluckRel]⟩
-    · obtain ⟨j, c, r, hj, _, hq, hr⟩ := pathfyList_sound cs cs 0 p q x h
-      refine ⟨elemFor cs j c :: r, by simp [hq], ?_⟩
-      have hj' : cs[j]? = some c := by simpa using hj
-      simp [pluckRel, step_elemFor t cs j c hj', hr]
-  | .token t v => simp [pathfy] at h; exact ⟨[], by simp [h, pluckRel]⟩
-  | .empty => simp [pathfy] at h; exact ⟨[], by simp [h, pluckRel]⟩
-theorem pathfyList_sound (all cs : List Entry) (i : Nat) (p : Path) :
-    ∀ q x, (q, x) ∈ pathfyList all cs i p →
-      ∃ j c r, cs[j - i]? = some c ∧ i ≤ j ∧ q = p ++ elemFor all j c :: r ∧ pluckRel r c = some x := by
-  intro q x h
-  match cs with
-  | [] => simp [pathfyList] at h
-  | c :: rest =>
-    simp only [pathfyList, List.mem_append] at h
-    rcases h with h | h
-    · obtain ⟨r, hq, hr⟩ := pathfy_sound c _ q x h
-      exact ⟨i, c, r, by simp, Nat.le_refl _, by simp [hq], hr⟩
-    · obtain ⟨j, c', r, hj, hij, hq, hr⟩ := pathfyList_sound all rest (i+1) p q x h
-      refine ⟨j, c', r, ?_, by omega, hq, hr⟩
-      have : j - i = (j - (i+1)) + 1 := by omega
-      rw [this]; simpa using hj
-end
-
-end Tranp.AstPath
+import Tranp.Lemmas.AstPath.Abstract
+import Tranp.Lemmas.AstPath.StrCodec
+import Tranp.Lemmas.AstPath.Codec
+import Tranp.Lemmas.AstPath.Bijection
+import Tranp.Lemmas.AstPath.Cache
+import Tranp.Lemmas.AstPath.Resolve
+import Tranp.Lemmas.AstPath.Children
+import Tranp.Lemmas.AstPath.CacheChildren
+import Tranp.Lemmas.AstPath.ChildrenPaths
+import Tranp.Lemmas.AstPath.Parent
+import Tranp.Lemmas.AstPath.Ancestor
